@@ -21,10 +21,11 @@ type C14SParams struct {
 	Cancels    int    // number of Cancel calls on the subscription by the canceller thread
 	SharedQ    bool   // a second subscription is created from the same query object (must be unaffected)
 	HookCancel bool   // a pre-put hook is registered and cancelled concurrently
+	TwoCancels bool   // a second subscription (own query) is cancelled by another thread at the same time; a third one stays
 }
 
 func (p C14SParams) Name() string {
-	return fmt.Sprintf("c14s/writerA=%d/writerB=%s/cancels=%d/sharedq=%v/hookcancel=%v", p.WriterA, p.WriterB, p.Cancels, p.SharedQ, p.HookCancel)
+	return fmt.Sprintf("c14s/writerA=%d/writerB=%s/cancels=%d/sharedq=%v/hookcancel=%v/twocancels=%v", p.WriterA, p.WriterB, p.Cancels, p.SharedQ, p.HookCancel, p.TwoCancels)
 }
 
 type c14rec struct {
@@ -101,6 +102,11 @@ func VerifC14S(p C14SParams) *vsched.Scenario {
 		if p.SharedQ {
 			sub2, _ = db.Subscribe(q)
 		}
+		var subB, subC *Subscription
+		if p.TwoCancels {
+			subB, _ = db.Subscribe(query.New("c14db:a/"))
+			subC, _ = db.Subscribe(query.New("c14db:a/"))
+		}
 		var rh *RegisteredHook
 		if p.HookCancel {
 			rh, err = RegisterHook(query.New("c14db:a/"), &c14hook{})
@@ -171,6 +177,17 @@ func VerifC14S(p C14SParams) *vsched.Scenario {
 				vsched.Emit("cancel-ret")
 			}
 		}()
+		if p.TwoCancels {
+			wg.Add(1)
+			go func() {
+				defer wg.Done()
+				vsched.Point("cancel-b")
+				if err := subB.Cancel(); err != nil {
+					c14fail("harness", "cancel-failed", "%v", err)
+				}
+				vsched.Emit("cancel-b-ret")
+			}()
+		}
 		if p.HookCancel {
 			wg.Add(1)
 			go func() {
@@ -298,6 +315,24 @@ func VerifC14S(p C14SParams) *vsched.Scenario {
 			}
 			if closed2 || n2 < want {
 				c14fail("other-subscription-unaffected", "affected", "a second subscription (same query object) got %d of %d writes, closed=%v, after the first one was cancelled\n%s", n2, want, closed2, desc())
+			}
+		}
+		if p.TwoCancels {
+			// after both cancels: a further write reaches exactly the remaining subscription and nothing panics
+			for len(subC.Feed) > 0 {
+				<-subC.Feed
+			}
+			put("a/7", 7)
+			if _, ok := <-subB.Feed; ok {
+				c14fail("feed-closed-after-cancel", "open", "the second cancelled subscription's feed is not closed\n%s", desc())
+			}
+			select {
+			case r, ok := <-subC.Feed:
+				if !ok || r == nil || !strings.HasSuffix(r.Key(), "a/7") {
+					c14fail("other-subscription-unaffected", "affected", "the subscription that was not cancelled did not receive a later write (closed=%v)\n%s", !ok, desc())
+				}
+			default:
+				c14fail("other-subscription-unaffected", "affected", "the subscription that was not cancelled did not receive a later write\n%s", desc())
 			}
 		}
 		// hook: not called for puts that began after its Cancel returned
